@@ -28,6 +28,13 @@ CLAIMED = {
  'C13': ('exploration', 'online reference-model monitor on the hook event stream of the real token bucket under a virtual clock; concurrent waiters; race detector',
          'Every state change of the real bucket is reported under its own mutex with the time the code used; the monitor replays the most permissive bucket the statement allows and checks window bound, token range, rate bounds, penalty rule and the direction of rate changes on each event.',
          'Per bucket lifetime (no LFU eviction); event sequences are seeded samples; penalty rule is the lower bound implied by the statement.', '4/C13'),
+
+ 'C05': ('exploration', 'stage-boundary monitor: every request leaving the real preprocessor stage judged by an independent scope predicate; filter sets installed through GenerateCrawlConfig',
+         'Generated and mutated URL texts are placed as seed, redirect target and asset under generated filter sets (one child process per set) and pushed through the real preprocessor/postprocessor stages; any item that leaves with a request whose wire URL the reference predicate rejects is a violation.',
+         'The fetch is fabricated; the predicate reads the host rule literally; sampled inputs.', '4/C05'),
+ 'C19': ('exploration', 'planted-URL completeness monitor over generated JSON/XML/RSS/Atom/sitemap/M3U8 documents and simulated S3 buckets walked through the real preprocessor+postprocessor stages',
+         'Documents carry URLs with unique tokens; after the real stages ran, every planted URL must have been requested (file extension / playlist URI) or queued as outlink (hops permitting); simulated buckets (3 API styles x 4 page sizes) are walked by following the links Zeno produced until exhaustion, every non-empty object must have been emitted and the walk must stay within a request bound.',
+         'Fabricated fetches (real archiver.ProcessBody); generators are samples of document shapes; playlists are well-formed (rendition groups referenced).', '4/C19'),
 }
 NOT_BUILT = 'check not built yet in this session (planned, see DESIGN.md section 4)'
 
